@@ -6,6 +6,16 @@ connection-layer messages of every type 80..100 (well-formed payloads built with
 encoders for every request kind, truncated ones, and random bytes; channel ids 0..3 and random).
 Afterwards (if the session survived) it authenticates for real and repeats connection-layer
 requests as control.
+Key re-exchanges are part of the program alphabet ("rekey" items): a complete re-key started by the SERVER
+(Transport.renegotiate_keys of the tested side) or by the client, with 0..3 generated connection-layer messages written by
+the client INSIDE the exchange window - at the moment the peer's KEXINIT arrives, i.e. for a server-started exchange between
+the server's KEXINIT and the client's own (RFC 4253 7.1 "messages in flight"), for a client-started one behind the client's
+KEXINIT (a protocol error the server may answer by ending the session). Replies the server holds back until NEWKEYS are
+collected after the exchange and judged by the same clauses.
+The application object is a dimension too: the ServerInterface handed to start_server is drawn from flavours an application
+may legitimately be (plain; defines __len__ -> 0 / __bool__ -> False, i.e. falsy; an empty dict subclass; __eq__ answering
+True / False to everything; __len__ > 0): "a server" in the statement is decided by how the transport was started, never by
+what the application object looks like.
 
 Oracle while no USERAUTH_SUCCESS has been sent (checked after every message, ordering by the
 UNIMPLEMENTED sentinel of vlib.authkit, no sleeps):
@@ -21,6 +31,9 @@ A session that dies (including the known pre-auth crash on types 81/82/91/92, wh
 finding) satisfies the statement: nothing was delivered.
 Control after authentication: tcpip-forward, session open and a shell request DO reach the
 application (guards against a vacuous pass).
+Besides the generated programs, quick enumerates: every type 80..100 right after a failed and after a partial attempt; every
+type 80..100 inside the window of a server-started and of a client-started re-key after a failed attempt; GLOBAL_REQUEST and
+CHANNEL_OPEN after a failed attempt for every application-object flavour.
 """
 from hypothesis import strategies as st
 
@@ -35,9 +48,13 @@ RULE = (
     "hypothesis-generated pre-authentication programs (1..14 items) mixing auth attempts that never succeed (none, password, "
     "publickey probe, forged publickey signature, keyboard-interactive query + responses; callback verdicts FAILED/PARTIAL generated) "
     "with messages of every type 80..100 (structured payloads for every global-request / channel-open / channel-request kind, "
-    "channel ids 0..3 and random, truncations, random bytes); quick additionally enumerates every type 80..100 once after a failed and "
-    "once after a partial authentication; followed by a real authentication and control requests; non-trivial = at least one "
-    "connection-layer message sent after a failed or partial authentication attempt; distinct by (policy, program)"
+    "channel ids 0..3 and random, truncations, random bytes) and with complete key re-exchanges (started by the server or by the client, "
+    "0..3 generated connection-layer messages written by the client inside the exchange window = when the peer's KEXINIT arrives); the "
+    "application object handed to start_server is drawn from 7 flavours (plain, falsy via __len__ / __bool__, empty dict subclass, __eq__ "
+    "always True / always False, truthy __len__); quick additionally enumerates every type 80..100 once after a failed and "
+    "once after a partial authentication, once inside a server-started and once inside a client-started re-key window, and types 80/90 "
+    "for every application flavour; followed by a real authentication and control requests; non-trivial = at least one "
+    "connection-layer message sent after a failed or partial authentication attempt; distinct by (application flavour, policy, program)"
 )
 
 FORBIDDEN_CB = ("check_channel", "check_port_forward_request", "cancel_port_forward_request", "check_global_request")
@@ -130,18 +147,33 @@ auth_item = st.one_of(
 )
 
 
+def rekey_item(types):
+    """A complete key re-exchange; `win` = connection-layer messages the client writes inside the exchange window."""
+    return st.builds(lambda by, win: {"k": "rekey", "by": by, "win": win}, st.sampled_from(["server", "server", "client"]), st.lists(msg_item(types), max_size=3))
+
+
+# application-object flavours (see app_object): what the ServerInterface instance handed to start_server looks like
+APPS = ("plain", "len0", "bool-false", "empty-dict", "eq-everything", "eq-nothing", "len3")
+MAX_REKEYS = 3
+
+
 @st.composite
 def cases(draw):
     safe = draw(st.sampled_from([True, False, False]))
     types = (80, 90) if safe else tuple(range(80, 101))
-    items = draw(st.lists(st.one_of(auth_item, msg_item(types), msg_item(types)), min_size=1, max_size=14))
+    elem = st.integers(0, 8).flatmap(lambda k: rekey_item(types) if k == 0 else auth_item if k < 4 else msg_item(types))
+    items = draw(st.lists(elem, min_size=1, max_size=14))
     # keep clear of the ten-failures disconnect (C16's subject)
-    n_auth = 0
+    n_auth = n_rekey = 0
     kept = []
     for it in items:
         if it["k"] == "auth":
             n_auth += 1
             if n_auth > 7:
+                continue
+        if it["k"] == "rekey":
+            n_rekey += 1
+            if n_rekey > MAX_REKEYS:
                 continue
         kept.append(it)
     policy = {
@@ -151,7 +183,7 @@ def cases(draw):
         "kbd": draw(st.sampled_from(["F", "P", "query", "query"])),
         "resp": draw(st.sampled_from(["F", "P", "query"])),
     }
-    return {"policy": policy, "pre": kept}
+    return {"app": draw(st.sampled_from(("plain", "plain") + APPS)), "policy": policy, "pre": kept}
 
 
 # ----------------------------------------------------------------------------- execution
@@ -173,6 +205,82 @@ def make_policy(pol):
         "check_channel_request": peers.OPEN_SUCCEEDED,
         "check_global_request": True,
     }
+
+
+_APP_CLASSES = {}
+
+
+def app_class(flavour):
+    """RecordingServer subclasses an application may legitimately hand to start_server. None of this says anything about
+    whether the transport is a server or whether the client is authenticated."""
+    if not _APP_CLASSES:
+        RS = peers.RecordingServer
+
+        class Len0(RS):  # e.g. exposes the number of sessions it serves: 0 before anybody has logged in
+            def __len__(self):
+                return 0
+
+        class Len3(RS):
+            def __len__(self):
+                return 3
+
+        class BoolFalse(RS):
+            def __bool__(self):
+                return False
+
+        class EmptyDict(dict, RS):  # a registry that is also the ServerInterface
+            def __init__(self, *a, **kw):
+                dict.__init__(self)
+                RS.__init__(self, *a, **kw)
+
+            __hash__ = object.__hash__
+
+        class EqEverything(RS):
+            def __eq__(self, other):
+                return True
+
+            def __ne__(self, other):
+                return False
+
+            __hash__ = object.__hash__
+
+        class EqNothing(RS):
+            def __eq__(self, other):
+                return False
+
+            def __ne__(self, other):
+                return True
+
+            __hash__ = object.__hash__
+
+        _APP_CLASSES.update({"plain": RS, "len0": Len0, "len3": Len3, "bool-false": BoolFalse, "empty-dict": EmptyDict, "eq-everything": EqEverything, "eq-nothing": EqNothing})
+    return _APP_CLASSES[flavour]
+
+
+class WindowPacketizer(peers.RecPacketizer):
+    """Puppet packetizer that writes the messages queued in `window` at the moment the peer's KEXINIT has been read,
+    before the puppet's own key-exchange code reacts to it (public Packetizer API only)."""
+
+    def __init__(self, sock):
+        peers.RecPacketizer.__init__(self, sock)
+        self.window = []
+        self.window_sent = 0
+
+    def read_message(self):
+        ptype, m = peers.RecPacketizer.read_message(self)
+        if ptype == 20 and self.window:
+            from paramiko.message import Message
+
+            msgs, self.window = self.window, []
+            for p in msgs:
+                mm = Message()
+                mm.add_bytes(p)
+                try:
+                    self.send_message(mm)
+                except (EOFError, OSError):
+                    break
+                self.window_sent += 1
+        return ptype, m
 
 
 def ref_global(p):
@@ -219,7 +327,10 @@ def auth_payload(s, m):
 def run_case(ctx, case, record=True):
     classes = set()
     state = {"after": "nothing", "nontrivial": False}
-    s = A.ServerSession(policy=make_policy(case["policy"]))
+    app = case.get("app", "plain")
+    classes.add("app:" + app)
+    srv = app_class(app)(make_policy(case["policy"]), allowed="password,publickey,keyboard-interactive,none")
+    s = A.ServerSession(srv=srv, client_kw={"packetizer_class": WindowPacketizer})
     try:
         verdict = _run(ctx, case, s, classes, state)
     finally:
@@ -243,6 +354,7 @@ def _run(ctx, case, s, classes, state):
         if it["k"] == "auth":
             r = s.exchange(auth_payload(s, it["m"]))
             what = "auth:" + it["m"]
+            sent = []
             for t, p in r.replies:
                 if t == 51:
                     try:
@@ -250,10 +362,36 @@ def _run(ctx, case, s, classes, state):
                     except R.RefError:
                         pass
             classes.add(what)
+        elif it["k"] == "rekey":
+            by = it["by"]
+            what = "in-rekey-by-" + by
+            sent = it.get("win", [])
+            pz = s.puppet.packetizer
+            n_before = pz.window_sent
+            pz.window = [bytes([w["t"]]) + w["p"] for w in sent]
+            done = s.rekey(by)
+            pz.window = []
+            # what the server held back until NEWKEYS (or its last words)
+            r = s.exchange(None)
+            if not done and not r.dead:
+                r = A.Step(r.replies, True)
+            classes.add("rekey:by-" + by)
+            classes.add("rekey:window-messages=%d" % len(sent))
+            classes.add("rekey:completed" if done else "rekey:session-ended-instead")
+            classes.add("rekey:after-" + state["after"])
+            if pz.window_sent - n_before:
+                classes.add("rekey:window-messages-written")
+            for w in sent:
+                classes.add("pre:%d" % w["t"])
+                classes.add("rekey-window:by-%s:%d" % (by, w["t"]))
+                if state["after"] in ("failed", "partial"):
+                    state["nontrivial"] = True
+                    classes.add("after-%s:%d" % (state["after"], w["t"]))
         else:
             t, p = it["t"], it["p"]
             r = s.exchange(bytes([t]) + p)
             what = "type%d" % t
+            sent = [it]
             classes.add("pre:%d" % t)
             if state["after"] in ("failed", "partial"):
                 state["nontrivial"] = True
@@ -277,20 +415,26 @@ def _run(ctx, case, s, classes, state):
         bad_r = [t for t, _ in replies if t in FORBIDDEN_REPLY]
         if bad_r:
             return _violation(ctx, case, i, "accepted-before-auth", "%s:reply%d" % (what, bad_r[0]), detail)
-        if it["k"] == "msg" and not r.dead:
-            if it["t"] == 80:
-                g = ref_global(it["p"])
-                if g is not None and g[1] and 82 not in [t for t, _ in replies]:
-                    return _violation(ctx, case, i, "request-not-refused", "global-request", detail)
-            elif it["t"] == 90:
-                o = ref_open(it["p"])
-                if o is not None:
-                    ok = False
-                    for t, p in replies:
-                        if t == 92 and len(p) >= 4 and R.Reader(p).u32() == o[1]:
-                            ok = True
-                    if not ok:
-                        return _violation(ctx, case, i, "request-not-refused", "channel-open", detail)
+        if it["k"] != "auth" and not r.dead:
+            # every well-formed request of this item (one message, or the messages written inside the re-key window)
+            inwin = ":" + what if it["k"] == "rekey" else ""
+            want82 = 0
+            for w in sent:
+                if w["t"] == 80:
+                    g = ref_global(w["p"])
+                    if g is not None and g[1]:
+                        want82 += 1
+                elif w["t"] == 90:
+                    o = ref_open(w["p"])
+                    if o is not None:
+                        ok = False
+                        for t, p in replies:
+                            if t == 92 and len(p) >= 4 and R.Reader(p).u32() == o[1]:
+                                ok = True
+                        if not ok:
+                            return _violation(ctx, case, i, "request-not-refused", "channel-open" + inwin, detail)
+            if [t for t, _ in replies].count(82) < want82:
+                return _violation(ctx, case, i, "request-not-refused", "global-request" + inwin, detail)
         if r.dead:
             classes.add("ended-by:" + what)
             return True
@@ -326,7 +470,8 @@ def _run(ctx, case, s, classes, state):
 
 def enumerated():
     """Every type 80..100 (one structured payload each, fixed) right after a failed and right
-    after a partially successful authentication attempt."""
+    after a partially successful authentication attempt; inside the window of a server- / client-started
+    re-key after a failed attempt; types 80 and 90 for every application-object flavour."""
     fixed = {
         80: R.string(b"tcpip-forward") + R.boolean(True) + R.string(b"0.0.0.0") + R.u32(8022),
         81: R.u32(8022),
@@ -347,7 +492,15 @@ def enumerated():
     for verdict in ("F", "P"):
         for t in range(80, 101):
             pol = {"none": verdict, "password": verdict, "pk": verdict, "kbd": verdict, "resp": verdict}
-            out.append({"policy": pol, "pre": [{"k": "auth", "m": "password"}, {"k": "msg", "t": t, "p": fixed.get(t, b"")}]})
+            out.append({"app": "plain", "policy": pol, "pre": [{"k": "auth", "m": "password"}, {"k": "msg", "t": t, "p": fixed.get(t, b"")}]})
+    polf = {"none": "F", "password": "F", "pk": "F", "kbd": "F", "resp": "F"}
+    # every type inside the window of a re-key (server- and client-started) after a failed attempt
+    for by in ("server", "client"):
+        for t in range(80, 101):
+            out.append({"app": "plain", "policy": polf, "pre": [{"k": "auth", "m": "password"}, {"k": "rekey", "by": by, "win": [{"k": "msg", "t": t, "p": fixed.get(t, b"")}]}]})
+    # the two request types for every application-object flavour
+    for app in APPS[1:]:
+        out.append({"app": app, "policy": polf, "pre": [{"k": "auth", "m": "password"}, {"k": "msg", "t": 80, "p": fixed[80]}, {"k": "msg", "t": 90, "p": fixed[90]}]})
     return out
 
 
